@@ -1,15 +1,32 @@
 import SFV.Model.Registry
 import SFV.Model.Proto
+import SFV.Gen.SourceLoc
 open SFV SFV.Proto SFV.Registry
 
 structure DSt where
   s : St := St.init
   regs : List Nat := []     -- object id of the k-th register_path result
+  heap : SourceLoc.Heap := []            -- in-flight histories: the DataLocation objects seen so far
+  tasks : List SourceLoc.Task := []      -- the get_source_location calls in progress / returned
 
 def parseParts (s : String) : Option Path :=
   if s = "~" then some [] else (s.splitOn ",").mapM stringOfHex
 
 def showPath (p : Path) : String := if p.isEmpty then "~" else ",".intercalate (p.map hexOfString)
+
+def parseNats (s : String) : Option (List Nat) :=
+  if s = "~" then some [] else (s.splitOn ",").mapM (·.toNat?)
+
+def parseDType : String → Option SourceLoc.DType
+  | "p" => some .primary
+  | "s" => some .symlink
+  | "i" => some .invalid
+  | _ => none
+
+def showTask : SourceLoc.Task → String
+  | .waiting _ _ => "w"
+  | .done none => "n"
+  | .done (some i) => toString i
 
 def step (d : DSt) : List String → DSt × String
   | ["new"] => ({}, "ok")
@@ -34,6 +51,27 @@ def step (d : DSt) : List String → DSt × String
           let paths := ((getLocs d.s p l).map (fun o => showPath (objPath d.s o))).mergeSort (· ≤ ·)
           (d, if paths.isEmpty then "-" else ";".intercalate paths)
       | _, _ => (d, "bad-op")
+  | ["fnew"] => ({ d with heap := [], tasks := [] }, "ok")
+  | ["floc", dep, isl, t, av] =>
+      match dep.toNat?, parseDType t with
+      | some dep, some t => ({ d with heap := d.heap ++ [⟨dep, isl = "1", t, av = "1"⟩] }, "ok")
+      | _, _ => (d, "bad-op")
+  | ["ftype", i, t] =>
+      match i.toNat?, parseDType t with
+      | some i, some t => ({ d with heap := d.heap.modify i (fun l => { l with dtype := t }) }, "ok")
+      | _, _ => (d, "bad-op")
+  | ["favail", i] =>
+      match i.toNat? with
+      | some i => ({ d with heap := d.heap.modify i (fun l => { l with avail := true }) }, "ok")
+      | none => (d, "bad-op")
+  | ["fask", same, loc, pl] =>
+      match parseNats same, parseNats loc, parseNats pl with
+      | some same, some loc, some pl =>
+          ({ d with tasks := d.tasks ++ [.waiting false (SourceLoc.candidates same loc pl)] }, "ok")
+      | _, _, _ => (d, "bad-op")
+  | ["ftick"] =>
+      let ts := d.tasks.map (SourceLoc.resume SFV.Gen.sourceLocShape d.heap)
+      ({ d with tasks := ts }, if ts.isEmpty then "-" else ";".intercalate (ts.map showTask))
   | _ => (d, "bad-op")
 
 def main : IO Unit := runStateful ({} : DSt) step
